@@ -3,7 +3,7 @@
    closed by `exact <lemma>`, and the axiom audit.  F ranges over all of N, hence over
    every u128. *)
 From Coq Require Import String.
-From LP Require Import Num Pay Sg1 Consts Sg1Proofs.
+From LP Require Import Num Pay Sg1 Bank FeeSites Consts Sg1Proofs C02Proofs FeeSitesProofs.
 Import ListNotations.
 Local Open Scope N_scope.
 
@@ -104,6 +104,134 @@ Theorem C06_must_pay_shape : forall funds d p,
   must_pay funds d = Ok p -> funds = [mkCoin d p] /\ p <> 0.
 Proof. exact must_pay_ok_shape. Qed.
 
+(* ------------------------------------------------------------------------------------
+   CALL SITES.  FeeSites.v says, for every place in the contracts that disposes of a
+   protocol fee, which sg1 function is called with which arguments.  Each site follows
+   the schedule of the property text for every fee F and payment p. *)
+
+(* the four factories, native creation fee F paid with p >= F ustars (open-edition:
+   p = F): floor(F/2) is burned and F - floor(F/2) funds the fair-burn pool on behalf of
+   the factory, whatever the denom of min_mint_price *)
+Theorem C06_site_creation_native : forall (k : fsite) (factory : addr) (mint_denom : denom) (F p : N),
+  p <> 0 -> F <= p -> (k = FsOpen -> p = F) ->
+  site_creation_fee k factory NATIVE mint_denom F [mkCoin NATIVE p] =
+  Ok [Burn NATIVE (F / 2); FundPool factory NATIVE (F - F / 2)].
+Proof. exact creation_native_exact. Qed.
+
+(* non-native creation fee: the whole payment (never less than F) to the launchpad DAO,
+   nothing burned, nothing to the pool, whatever the denom of min_mint_price *)
+Theorem C06_site_creation_non_native : forall (k : fsite) (factory : addr) (d mint_denom : denom) (F p : N),
+  d <> NATIVE -> p <> 0 -> F <= p -> (k = FsOpen -> p = F) ->
+  site_creation_fee k factory d mint_denom F [mkCoin d p] = Ok [Send A_LAUNCHPAD_DAO d p].
+Proof. exact creation_non_native_exact. Qed.
+
+(* anything but exactly one non-zero coin of the fee denom, or less than the fee: rejected *)
+Theorem C06_site_creation_rejects : forall k factory fee_denom mint_denom F funds,
+  (must_pay funds fee_denom = Err \/ exists p, must_pay funds fee_denom = Ok p /\ p < F) ->
+  site_creation_fee k factory fee_denom mint_denom F funds = Err.
+Proof. exact creation_rejects. Qed.
+
+(* and there is nothing else a factory can do with a creation fee *)
+Theorem C06_site_creation_complete : forall k factory fee_denom mint_denom F funds ms,
+  site_creation_fee k factory fee_denom mint_denom F funds = Ok ms ->
+  exists p, funds = [mkCoin fee_denom p] /\ p <> 0 /\ F <= p /\ (k = FsOpen -> p = F) /\
+            ms = if fee_denom =? NATIVE
+                 then [Burn NATIVE (F / 2); FundPool factory NATIVE (F - F / 2)]
+                 else [Send A_LAUNCHPAD_DAO fee_denom p].
+Proof. exact creation_ok_shape. Qed.
+
+(* shuffle, whitelist creation, IncreaseMemberLimit, Merkle whitelist creation,
+   EnableUpdatable, base-minter mint: paying the fee F > 0 exactly burns floor(F/2) and
+   funds the pool with the rest on behalf of the contract *)
+Theorem C06_site_fair_burn_exact : forall (r : pay_rule) (contract : addr) (F : N),
+  F <> 0 ->
+  site_fair_burn_fee r contract F [mkCoin NATIVE F] =
+  Ok [Burn NATIVE (F / 2); FundPool contract NATIVE (F - F / 2)].
+Proof. exact fair_burn_site_exact. Qed.
+
+Theorem C06_site_fair_burn_complete : forall r contract F funds ms,
+  site_fair_burn_fee r contract F funds = Ok ms ->
+  exists p, may_pay funds NATIVE = Ok p /\ F <= p /\ (r <> PayAtLeast -> p = F) /\
+            ms = if p =? 0 then [] else [Burn NATIVE (F / 2); FundPool contract NATIVE (F - F / 2)].
+Proof. exact fair_burn_site_ok_shape. Qed.
+
+Theorem C06_site_fair_burn_rejects : forall r contract F funds,
+  (may_pay funds NATIVE = Err \/ exists p, may_pay funds NATIVE = Ok p /\ p < F) ->
+  site_fair_burn_fee r contract F funds = Err.
+Proof. exact fair_burn_site_rejects. Qed.
+
+(* sg-eth-airdrop instantiate: 100 STARS, half burned, half to the pool on behalf of the
+   airdrop contract itself; less than the fee (or no single ustars coin) is rejected *)
+Theorem C06_site_airdrop_init : forall (airdrop : addr) (funds : list coin),
+  site_airdrop_init airdrop funds =
+  match must_pay funds NATIVE with
+  | Err => Err
+  | Ok p => if p <? 100000000 then Err
+            else Ok [Burn NATIVE 50000000; FundPool airdrop NATIVE 50000000]
+  end.
+Proof. exact airdrop_init_cases. Qed.
+
+(* mint-fee sites: F = floor(price * bps / 10^4) of an exactly paid price; vending family:
+   no developer, one eighth when featured else one fifth; open-edition family: the
+   factory's developer gets ceil(F/2), one fifth of the rest; token-merge: one fifth *)
+Theorem C06_site_mint_fee : forall (k : msite) (d : denom) (price bps : N) (funds : list coin),
+  site_mint_fee k d price bps funds =
+  match may_pay funds d with
+  | Err => Err
+  | Ok p =>
+      if negb (p =? price) then Err
+      else
+        let F := price * bps / 10000 in
+        if F =? 0 then Ok []
+        else Ok match k with
+                | MsVending true => [Send A_LIQUIDITY_DAO d ((F + 7) / 8); Send A_LAUNCHPAD_DAO d (F - (F + 7) / 8)]
+                | MsVending false | MsTokenMerge =>
+                    [Send A_LIQUIDITY_DAO d ((F + 4) / 5); Send A_LAUNCHPAD_DAO d (F - (F + 4) / 5)]
+                | MsOpen dev =>
+                    let devf := (F + 1) / 2 in
+                    let R := F - devf in
+                    [Send dev d devf; Send A_LIQUIDITY_DAO d ((R + 4) / 5); Send A_LAUNCHPAD_DAO d (R - (R + 4) / 5)]
+                end
+  end.
+Proof. exact mint_site_schedule. Qed.
+
+(* every site: the pool message, if any, names the contract that runs the site *)
+Theorem C06_site_pool_on_behalf_of_contract : forall (s : site) (contract : addr) funds ms,
+  site_msgs s contract funds = Ok ms ->
+  forall snd d x, In (FundPool snd d x) ms -> snd = contract.
+Proof. exact site_pool_sender. Qed.
+
+(* every site (mint fee rate at most 100 %): what is paid out is covered, denom by
+   denom, by what was paid in with the call -- no part larger than the payment *)
+Theorem C06_site_funded_by_payment : forall (s : site) (contract : addr) funds ms,
+  match s with SMint _ _ _ bps => bps <= 10000 | _ => True end ->
+  site_msgs s contract funds = Ok ms -> forall d, debits ms d <= paid funds d.
+Proof. exact site_funded_by_payment. Qed.
+
+(* every site, world level: each balance after the call is the balance before, minus
+   the payment for the payer, plus the payment minus the fee messages for the contract,
+   plus what the messages credit; the sum over all accounts (burned included) is kept *)
+Theorem C06_site_world_balances : forall s contract payer funds b b',
+  site_world s contract payer funds b = Ok b' ->
+  exists ms, site_msgs s contract funds = Ok ms /\
+    (forall a d,
+        bal_get b' a d + (if a =? payer then paid funds d else 0) + (if a =? contract then debits ms d else 0)
+        = bal_get b a d + (if a =? contract then paid funds d else 0) + credits ms a d) /\
+    (forall d, total b' d = total b d).
+Proof. exact site_world_balances. Qed.
+
+(* the native fair burn seen from the chain *)
+Theorem C06_site_fair_burn_world : forall contract payer p F b b1 b',
+  contract <> payer -> contract <> A_BURNED -> contract <> A_FAIRBURN_POOL ->
+  payer <> A_BURNED -> payer <> A_FAIRBURN_POOL ->
+  attach b payer contract [mkCoin NATIVE p] = Ok b1 ->
+  apply_bmsgs contract b1 [Burn NATIVE (F / 2); FundPool contract NATIVE (F - F / 2)] = Ok b' ->
+  bal_get b' A_BURNED NATIVE = bal_get b A_BURNED NATIVE + F / 2 /\
+  bal_get b' A_FAIRBURN_POOL NATIVE = bal_get b A_FAIRBURN_POOL NATIVE + (F - F / 2) /\
+  bal_get b' payer NATIVE + p = bal_get b payer NATIVE /\
+  bal_get b' contract NATIVE + F = bal_get b contract NATIVE + p.
+Proof. exact fair_burn_world. Qed.
+
 (* non-vacuity: concrete values, including the ends of the u128 range *)
 Example C06_ex_fair_burn_9 : fair_burn 7 9 None = Ok [Burn NATIVE 4; FundPool 7 NATIVE 5].
 Proof. vm_compute. reflexivity. Qed.
@@ -120,6 +248,21 @@ Proof. vm_compute. reflexivity. Qed.
 Example C06_ex_checked_short : checked_fair_burn 7 [mkCoin NATIVE 9] 10 None = Err.
 Proof. vm_compute. reflexivity. Qed.
 
+Example C06_ex_site_vending_ibc_mint_denom :
+  site_creation_fee FsVending 20 NATIVE 1 5000000000 [mkCoin NATIVE 5000000000] =
+  Ok [Burn NATIVE 2500000000; FundPool 20 NATIVE 2500000000].
+Proof. vm_compute. reflexivity. Qed.
+Example C06_ex_site_vending_ibc_fee :
+  site_creation_fee FsVending 20 1 NATIVE 3 [mkCoin 1 3] = Ok [Send A_LAUNCHPAD_DAO 1 3].
+Proof. vm_compute. reflexivity. Qed.
+Example C06_ex_site_world_airdrop :
+  site_world SAirdropInit 20 21 [mkCoin NATIVE 100000000] [(21, NATIVE, 100000000)] =
+  Ok [(21, NATIVE, 0); (20, NATIVE, 0); (A_BURNED, NATIVE, 50000000); (A_FAIRBURN_POOL, NATIVE, 50000000)].
+Proof. vm_compute. reflexivity. Qed.
+Example C06_ex_site_oe_mint_fee_3 :
+  site_mint_fee (MsOpen 9) 0 30 1000 [mkCoin 0 30] = Ok [Send 9 0 2; Send A_LIQUIDITY_DAO 0 1; Send A_LAUNCHPAD_DAO 0 0].
+Proof. vm_compute. reflexivity. Qed.
+
 Print Assumptions C06_addresses.
 Print Assumptions C06_fair_burn_exact.
 Print Assumptions C06_fair_burn_conserves.
@@ -132,3 +275,18 @@ Print Assumptions C06_ibc_exact.
 Print Assumptions C06_ibc_conserves.
 Print Assumptions C06_non_native_all_to_dao.
 Print Assumptions C06_must_pay_shape.
+Print Assumptions C06_site_creation_native.
+Print Assumptions C06_site_creation_non_native.
+Print Assumptions C06_site_creation_rejects.
+Print Assumptions C06_site_creation_complete.
+Print Assumptions C06_site_fair_burn_exact.
+Print Assumptions C06_site_fair_burn_complete.
+Print Assumptions C06_site_fair_burn_rejects.
+Print Assumptions C06_site_airdrop_init.
+Print Assumptions C06_site_mint_fee.
+Print Assumptions C06_site_pool_on_behalf_of_contract.
+Print Assumptions C06_site_funded_by_payment.
+Print Assumptions C06_site_world_balances.
+Print Assumptions C06_site_fair_burn_world.
+Print Assumptions C06_ex_site_vending_ibc_mint_denom.
+Print Assumptions C06_ex_site_world_airdrop.
